@@ -175,10 +175,37 @@ def r3(c):
     c.ob('owned', ty.get('tracker', '').endswith('SessionTracker') and 'TcpListener' in ty.get('listener', ''), 'tracker and listener are fields of the task (dropped with it)', '')
 
 
+APPLY = 'rodbus::server::task::SessionTask::apply_command'
+
+
+def command_arms(c, ro):
+    """in run_one (seen with the command handler expanded): the edges on which the command received is Shutdown /
+    ChangeDecoding.  Returns {variant: [edges]}"""
+    out = {}
+    for e, v, info in ro.variant_edges(SC):
+        if v:
+            out.setdefault(v, []).append(e)
+    return out
+
+
+def exits_from(body, edges):
+    """[(exit, class)] for the exits reachable from the given edges"""
+    exs = q.exits(body)
+    out = []
+    for e in edges:
+        rs = body.reach_set(e) | {e}
+        for x in exs:
+            if x['node'] in rs:
+                out.append((x, q.exit_class_from(body, e, x)))
+    return out
+
+
 @rule('C15', 'R15.4', 'session side: a closed command channel or a Shutdown command ends the session')
 def r4(c):
     P = c.P
-    ro = P.fn('rodbus::server::task::SessionTask::run_one')
+    # the command handler (apply_command) is a few-line private helper: run_one is looked at with it expanded, so that the
+    # same obligations hold however the handling is cut into functions
+    ro = inline.expand(P, P.fn('rodbus::server::task::SessionTask::run_one'), {APPLY})
     c.saw(ro, len(ro.calls()))
     rc = one(ro.calls('tokio::sync::mpsc::bounded::Receiver::recv'), 'commands.recv')
     r = q.sem(ro, rc.args[0])
@@ -187,17 +214,12 @@ def r4(c):
     c.ob('raced', len(sel) == 1 and rc in sel[0]['futures'] and any(f is not None and f.callee.endswith('next_frame') for f in sel[0]['futures']), 'commands are raced with next_frame', '', loc_of(ro))
     okn, how, why = q.failure_leaves(ro, rc)
     c.ob('closed->shutdown', okn, 'a closed command channel (evicted / server gone) makes run_one return an error', '%s: %s' % (how, why), rc.loc())
-    ac = one(ro.calls('rodbus::server::task::SessionTask::apply_command'), 'apply_command')
-    oke, how, why = q.failure_leaves(ro, ac)
-    c.ob('command-shutdown', oke, 'Err(Shutdown) from apply_command makes run_one return an error (ends the session)', '%s: %s' % (how, why), ac.loc())
-    ap = P.fn('rodbus::server::task::SessionTask::apply_command')
-    arms = q.arms_of(ap, SC)
-    for v, want in (('Shutdown', 'Err'), ('ChangeDecoding', 'Ok')):
-        reg = set()
-        for e, rg in arms.get(v, []):
-            reg |= rg
-        xs = q.exit_in(ap, reg)
-        c.ob('apply_command/%s' % v, bool(xs) and all(x['kind'] == 'agg' and x['variant'] == want for x in xs), 'ServerCommand::%s -> %s' % (v, want), '', loc_of(ap))
+    arms = command_arms(c, ro)
+    for v, want in (('Shutdown', 'failure'), ('ChangeDecoding', 'success')):
+        xs = exits_from(ro, arms.get(v, []))
+        c.ob('command/%s' % v, bool(xs) and all(cl == want for _, cl in xs),
+             'ServerCommand::%s makes run_one return %s' % (v, 'an error (the session ends)' if want == 'failure' else 'Ok (the session goes on)'),
+             '%d arms, exits %s' % (len(arms.get(v, [])), [(x['kind'], cl) for x, cl in xs]), rc.loc())
     run = P.fn('rodbus::server::task::SessionTask::run')
     r1_ = one(run.calls('rodbus::server::task::SessionTask::run_one'), 'run_one')
     e = q.outcomes(run, r1_).get('Err', [])
